@@ -31,8 +31,8 @@ def py_leg(rep, vs, checks, worker=None):
 def _run(pid, tier, checks, replay, assumptions, rule, extra_leg=None):
     rep = Report(pid, tier)
     rep.assumptions = assumptions
-    if extra_leg:
-        extra_leg(rep, tier, pid)
+    for leg in (extra_leg if isinstance(extra_leg, (list, tuple)) else [extra_leg] if extra_leg else []):
+        leg(rep, tier, pid)
     vs = wire.generate(tier)
     for st in vs.stats:
         rep.add_tlc(st)
@@ -94,14 +94,140 @@ def _trace_leg(rep, tier, pid):
                                        "little": bytes(items[0]["obsL"]).hex()}}, limit=4)
 
 
+def _decode_trace_leg(rep, tier, pid):
+    """code -> spec for DECODE: random schemas, canonical and arbitrarily
+    mutated inputs decoded by the real Python codec; TLC runs the reference
+    decoder (spec/WireDecGiven.tla) on every recorded input and then the
+    encoder specification (WireGiven!TSpec) on the walks involved.  What is
+    judged depends on the property:
+      C02  an input that is the canonical image of a value (reference decoder
+           accepts it and the specification encodes the decoded walk to the
+           very same bytes, greedy tail aligned) must decode, to that value,
+           consuming everything, and re-encode to the same bytes;
+      C06  every decode terminates, raises only ProphyError, stays in its
+           memory budget; a returned message encodes and is a fixpoint;
+      C01  the re-encoding of every message produced by decode equals the
+           specification's encoding of the value read back from it."""
+    from concurrent.futures import ProcessPoolExecutor
+    from .common import NCPU, seed
+    from . import schema as S
+    per = (4, 3, 6) if tier == "quick" else (60, 6, 16)
+    jobs = [(seed() * 1000 + 500 + w, per[0], per[1], per[2], {"scratch": scratch_dir("dr")}) for w in range(NCPU)]
+    recs = []
+    with ProcessPoolExecutor(max_workers=NCPU) as ex:
+        for r in ex.map(pytrace.decode_worker, *zip(*jobs)):
+            recs += r["records"]
+            for f in r["fails"]:
+                rep.violation(f, shadows.match(pid, f))
+    if not recs:
+        raise wire.MachineryError("decode trace leg recorded nothing")
+    dverd, st = wire.decide_decodes(recs)
+    rep.add_tlc(st)
+    # encoder specification on: the reference decoder's walk (is the input
+    # canonical?) and the walk read back from the real message (is the
+    # re-encoding right? does the greedy tail end aligned?)
+    titems, tref = [], []
+    for i, (r, d) in enumerate(zip(recs, dverd)):
+        if d["verdict"] == "accept":
+            titems.append({"env": r["env"], "walk": d["dwalk"], "obsL": r["inp"] if r["ord"] == "L" else [],
+                           "obsB": r["inp"] if r["ord"] == "B" else []})
+            tref.append(("canon", i))
+        if r["walk"] is not None:
+            titems.append({"env": r["env"], "walk": r["walk"], "obsL": r["reenc"] if r["ord"] == "L" else [],
+                           "obsB": r["reenc"] if r["ord"] == "B" else []})
+            tref.append(("real", i))
+    tverd, illegal, st2 = wire.validate_traces(titems)
+    rep.add_tlc(st2)
+    canon, real = {}, {}
+    for (what, i), v in zip(tref, tverd):
+        (canon if what == "canon" else real)[i] = v
+    outcomes = {}
+    n_canon = 0
+    for i, (r, d) in enumerate(zip(recs, dverd)):
+        env = S.Env(r["env"], names=r["names"])
+        o = r["ord"]
+        data = bytes(r["inp"])
+        key = "%s/%s/spec-%s" % (r["kind"], r["outcome"], d["verdict"])
+        outcomes[key] = outcomes.get(key, 0) + 1
+        base = {"schema": env.render(), "defs": r["env"], "order": o, "inp": data.hex(), "mutation": r["kind"],
+                "spec_decoder": (d["verdict"] + " " + d["reason"]).strip()}
+        cv = canon.get(i)
+        diff = None if cv is None else (cv["dL"] if o == "L" else cv["dB"])
+        is_canon = cv is not None and diff == 0 and (d["kind"] != 2 or cv["gta"])
+        if is_canon:
+            n_canon += 1
+        if r["kind"] != "canon":
+            rep.nontrivial("dec:%d:%s" % (hash(json.dumps(r["env"], sort_keys=True)), data.hex()))
+        if pid == "C02" and is_canon:
+            what = None
+            if r["outcome"] != "return":
+                what = "decode(%s, %s) of a canonical image failed: %s %s" % (data.hex(), o, r["outcome"], r["exc"])
+            elif r["consumed"] != len(data):
+                what = "decode(%s, %s) reports %r consumed bytes of %d" % (data.hex(), o, r["consumed"], len(data))
+            elif r["walk"] != d["dwalk"]:
+                what = "decode(%s, %s) yields %r, the specification's decoder %r" % (
+                    data.hex(), o, _wl(r["walk"]), _wl(d["dwalk"]))
+            elif r["reenc"] != r["inp"]:
+                what = "decode(%s, %s) re-encodes to %s" % (data.hex(), o, bytes(r["reenc"]).hex())
+            if what:
+                f = dict(base, check="dec", what=what, walk=d["dwalk"])
+                rep.violation(f, shadows.match(pid, f))
+        if pid == "C06":
+            what = None
+            if r["outcome"] == "other":
+                what = "decode(%s, %s) raised %s (not ProphyError)" % (data.hex(), o, r["exc"])
+            elif r["outcome"] == "timeout":
+                what = "decode(%s, %s) did not terminate within 5 s" % (data.hex(), o)
+            elif r["peak"] > 64 * len(data) + (1 << 20):
+                what = "decode(%s, %s) allocated %d bytes for %d input bytes" % (data.hex()[:80], o, r["peak"], len(data))
+            elif r["fix"]:
+                rv = real.get(i)
+                # an unlimited root whose decoded greedy tail does not end
+                # aligned owes no fixpoint (the specification decides)
+                owed = not (d["kind"] == 2 and rv is not None and not rv["gta"])
+                if owed:
+                    what = "decode(%s, %s) returned; %s" % (data.hex(), o, r["fix"])
+                else:
+                    outcomes["greedy-tail-unaligned (fixpoint not owed)"] = \
+                        outcomes.get("greedy-tail-unaligned (fixpoint not owed)", 0) + 1
+            if what:
+                f = dict(base, check="total", what=what, walk=r["walk"] or [])
+                rep.violation(f, shadows.match(pid, f))
+        if pid == "C01" and r["walk"] is not None:
+            rv = real.get(i)
+            rd = None if rv is None else (rv["dL"] if o == "L" else rv["dB"])
+            if rv is not None and rd:
+                f = dict(base, check="enc", walk=r["walk"],
+                         what="message produced by decode(%s, %s) encodes to %s; the specification encodes the value "
+                              "read back from it to %s (first difference at offset %d)"
+                              % (data.hex(), o, bytes(r["reenc"]).hex(),
+                                 bytes(rv["outL"] if o == "L" else rv["outB"]).hex(), rd - 1))
+                rep.violation(f, shadows.match(pid, f))
+    rep.count(len(recs))
+    rep.validated(len(recs))
+    rep.cov["recorded_decodes"] = len(recs)
+    rep.cov["recorded_decodes_canonical_inputs"] = n_canon
+    rep.cov["recorded_decode_outcomes (mutation/python/spec-decoder)"] = outcomes
+    ex = next((r for r, d in zip(recs, dverd) if r["kind"] not in ("canon",) and d["verdict"] == "reject"), None)
+    if ex:
+        rep.sample({"recorded_decode": {"schema": S.Env(ex["env"], names=ex["names"]).render(), "order": ex["ord"],
+                                        "input": bytes(ex["inp"]).hex(), "mutation": ex["kind"],
+                                        "python": ex["outcome"]}}, limit=4)
+
+
+def _wl(walk):
+    return [[e["e"], e["n"], list(e["v"])] for e in walk]
+
+
 def c01(tier, replay):
-    return _run("C01", tier, ["enc"], replay, ASSUME_COMMON, RULE, extra_leg=_trace_leg)
+    return _run("C01", tier, ["enc"], replay, ASSUME_COMMON, RULE, extra_leg=[_trace_leg, _decode_trace_leg])
 
 
 def c02(tier, replay):
     guard = wire.vacuity_guard()
     return _run("C02", tier, ["dec"], replay, ASSUME_COMMON + [
-        "round trip claimed only for vectors with GreedyTailAligned (spec operator)"], RULE)
+        "round trip claimed only for vectors with GreedyTailAligned (spec operator)"], RULE,
+        extra_leg=_decode_trace_leg)
 
 
 def _both(pid, tier, py_checks, cpp_checks, assumptions, rule, layouts=False):
@@ -134,6 +260,7 @@ def c06(tier, replay):
         "measured with tracemalloc",
         "the reference decoder's verdict is recorded as information only - the property does not oblige the codec "
         "to reject anything in particular"]
+    _decode_trace_leg(rep, tier, "C06")
     vs = wire.generate_faults(tier)
     for st in vs.stats:
         rep.add_tlc(st)
@@ -228,9 +355,49 @@ def cpp_leg(rep, vs, checks, tier, nbatch=12):
     return groups
 
 
-def _run_cpp(pid, tier, checks, assumptions, rule, vs=None, nbatch=12):
+def cpp_random_leg(rep, checks, tier, faults):
+    """Random schemas (vf/gen.py): canonical images computed by TLC from the
+    encoder specification and, for `faults`, arbitrary mutations judged by the
+    reference decoder - replayed into the generated C++ codec."""
+    from . import randwire
+    pid = rep.pid
+    if faults:
+        groups, stats = randwire.fault_groups(tier, 31)
+    else:
+        _, groups, stats = randwire.canonical_groups(tier, 17)
+    for st in stats:
+        rep.add_tlc(st)
+    results = wire.run_batches(cppwire.worker, groups, randwire._VS(), {"checks": checks, "scratch": scratch_dir("cpp")},
+                               nbatch=16, timeout=3000)
+    outcomes = {}
+    for r in results:
+        if "crash" in r:
+            rep.violation({"what": "worker crashed or hung: %s" % r["crash"], "groups": r["groups"]})
+            continue
+        rep.count(r["n_cases"])
+        rep.validated(r["n_cases"])
+        for gid in r["nontrivial"]:
+            rep.nontrivial("cpp:%s" % gid)
+        for k, n in r.get("outcomes", {}).items():
+            outcomes[k] = outcomes.get(k, 0) + n
+        for f in r["fails"]:
+            rep.violation(f, shadows.match(pid, f))
+        for k, n in r.get("n_checked", {}).items():
+            rep.cov["cpp_random_checked_" + k] = rep.cov.get("cpp_random_checked_" + k, 0) + n
+        for dis in r.get("disagreements", []):
+            lst = rep.cov.setdefault("random schemas: sample verdict disagreements (information)", [])
+            if sum(1 for x in lst if x["cpp"] == dis["cpp"]) < 3:
+                lst.append(dis)
+    if outcomes:
+        rep.cov["random schemas: outcomes (mutation/cpp/spec-decoder)"] = outcomes
+    rep.cov["cpp_random_schemas"] = len(groups)
+
+
+def _run_cpp(pid, tier, checks, assumptions, rule, vs=None, nbatch=12, random_leg=None):
     rep = Report(pid, tier)
     rep.assumptions = assumptions
+    if random_leg is not None:
+        cpp_random_leg(rep, checks, tier, random_leg == "faults")
     vs = vs or wire.generate(tier, light=True)
     wire.add_reproducers(vs, pid)
     for st in vs.stats:
@@ -246,14 +413,17 @@ ASSUME_CPP = ASSUME_COMMON + [
     "x86-64 little-endian host; decode input and encode output live in exact-size malloc blocks (8-aligned)",
     "schemas with several arrays bound to one sizer are skipped (the generator's documented refusal)"]
 RULE_CPP = RULE + "; evaluations = driver cases (vector x byte order x operation)"
+RULE_RANDOM = ("; plus randomly drawn deeper schemas and values (vf/gen.py) whose canonical images TLC computes from the "
+               "encoder specification (WireGiven!TSpec) and whose arbitrary mutations (truncation, byte/word "
+               "substitution, extension, excision, random strings) the reference decoder (WireDecGiven) judges")
 
 
 def c03(tier, replay):
-    return _run_cpp("C03", tier, ["compat"], ASSUME_CPP, RULE_CPP)
+    return _run_cpp("C03", tier, ["compat"], ASSUME_CPP, RULE_CPP + RULE_RANDOM, random_leg="canonical")
 
 
 def c05(tier, replay):
-    return _run_cpp("C05", tier, ["gbs"], ASSUME_CPP, RULE_CPP)
+    return _run_cpp("C05", tier, ["gbs"], ASSUME_CPP, RULE_CPP + RULE_RANDOM, random_leg="canonical")
 
 
 def c07(tier, replay):
@@ -263,8 +433,8 @@ def c07(tier, replay):
         "operator new in the driver (budget 64*len + 64 KiB, exceeded => the process stops instead of allocating)",
         "the reference decoder's accept/reject verdict is recorded as information only"],
         "TLC enumerates every faulted image (truncations, extensions, control-word corruptions) of every enumerated "
-        "(schema, value); each is decoded by the generated C++ codec under ASan+UBSan; distinct = distinct schemas",
-        vs=vs)
+        "(schema, value); each is decoded by the generated C++ codec under ASan+UBSan; distinct = distinct schemas"
+        + RULE_RANDOM, vs=vs, random_leg="faults")
 
 
 def c18(tier, replay):
